@@ -566,3 +566,7 @@ mod tests {
         }
     }
 }
+
+#[cfg(futures_buffered_verif)]
+#[path = "/verif/hooks/futures_unordered_bounded.rs"]
+mod verif_hooks;
